@@ -396,6 +396,31 @@ func (g *Gen) Map(kind string, dom Name, mapid string, wildToo bool) {
 	}
 }
 
+// SVCB declares an SVCB (B line, type 64) or HTTPS (H line, type 65) record: priority, target
+// name and parameters (RFC 9460); the rdata is priority, the uncompressed target, the parameters in
+// key order.  The TTL is always explicit (the line type has no default).
+func (g *Gen) SVCB(dom Name, https, wild bool, target Name, loc []byte) {
+	typ, pre := 64, "B"
+	if https {
+		typ, pre = 65, "H"
+	}
+	ps := []struct {
+		text string
+		wire []byte
+	}{
+		{"", nil},
+		{"alpn=h2", []byte{0, 1, 0, 3, 2, 'h', '2'}},
+		{"port=443;ipv4hint=192.0.2.1", []byte{0, 3, 0, 2, 1, 0xbb, 0, 4, 0, 4, 192, 0, 2, 1}},
+		{"ipv4hint=192.0.2.1|192.0.2.2;alpn=h2|h3", []byte{0, 1, 0, 6, 2, 'h', '2', 2, 'h', '3', 0, 4, 0, 8, 192, 0, 2, 1, 192, 0, 2, 2}},
+	}[g.R.Intn(4)]
+	prio := g.R.Intn(3)
+	ttl := int64([]int{1, 60, 300, 3600}[g.R.Intn(4)])
+	rd := append(u16(prio), target.Lower().Pack()...)
+	rd = append(rd, ps.wire...)
+	g.add(pre, pre+join(",", wildText(dom, wild), target.Lower().TextDot(), fmt.Sprint(ttl), locText(loc), fmt.Sprint(prio), ps.text),
+		g.rec(dom, wild, loc, typ, ttl, 0, rd))
+}
+
 // Subnet declares a % line.
 func (g *Gen) Subnet(loc []byte, cidr string, mapid string) {
 	g.add("%", "%"+locText(loc)+","+cidr+","+mapid)
